@@ -3,6 +3,7 @@
 PLAN = {
     'C01': dict(level='proof', engines=[]),
     'C02': dict(level='proof', engines=[]),
+    'C03': dict(level='proof', engines=['bundles']),
     'C04': dict(level='proof', engines=[]),
     'C06': dict(level='proof', engines=[]),
     'C07': dict(level='proof', engines=[]),
